@@ -97,6 +97,8 @@ def gen(seed, n, mods_p=0.0):
         elif g.r.random() < 0.06:
             doc, pt = pg.mixed_doc_and_path()
         elif g.r.random() < 0.06:
+            doc, pt = pg.wide_doc_and_path()
+        elif g.r.random() < 0.06:
             # one part object at several positions, over a homogeneous nest of mappings / lists with dead ends
             kind = g.r.choice(["dict", "list"])
             doc = g.container(4, 3, kind)
